@@ -242,7 +242,7 @@ class Session:
             self.clauses[oid] = Clause(oid)
         return self.clauses[oid]
 
-    def ensure(self, cid, goal, witness="", extra=(), case=None):
+    def ensure(self, cid, goal, witness="", extra=(), case=None, timeout_ms=None):
         """obligation: on the current path, goal follows from pc + axioms"""
         I = self.I
         c = self.clause(cid)
@@ -257,7 +257,7 @@ class Session:
             goal = goal.term
         hyps = I.pc + I.axioms_path + list(extra)
         hyps = hyps + V.auto_axioms(goal, *hyps)
-        st, be, dt, model, detail = solve(hyps, goal, names=self.names)
+        st, be, dt, model, detail = solve(hyps, goal, names=self.names, timeout_ms=timeout_ms)
         c.add(st, be, dt, detail, model if st == REFUTED else None, witness)
         return st == DISCHARGED
 
